@@ -23,6 +23,7 @@ import (
 	"sort"
 	"strings"
 	"sync"
+	"time"
 
 	coraza "github.com/corazawaf/coraza/v3"
 	"github.com/corazawaf/coraza/v3/experimental"
@@ -544,7 +545,9 @@ func exchange(c *Case, s *server, wrapped bool) (*runOut, error) {
 		h.ServeHTTP(rec, r)
 	})
 	inner0 := outer
+	done := make(chan struct{}, 4)
 	outer = func(w http.ResponseWriter, r *http.Request) {
+		defer func() { done <- struct{}{} }()
 		inner0(w, r)
 		if rec.snap == nil {
 			// committed by the server when the handler returns: the live map counts
@@ -558,6 +561,10 @@ func exchange(c *Case, s *server, wrapped bool) (*runOut, error) {
 		cr, err = s.do(c, outer)
 		if err != nil {
 			// one retry on a fresh connection
+			select {
+			case <-done:
+			case <-time.After(2 * time.Second):
+			}
 			s.cl.CloseIdleConnections()
 			hr2 := &handlerRun{bare: hr.bare}
 			*hr = *hr2
@@ -565,6 +572,12 @@ func exchange(c *Case, s *server, wrapped bool) (*runOut, error) {
 			if err != nil {
 				return nil, err
 			}
+		}
+		// the client may have the whole response before the handler goroutine has returned
+		select {
+		case <-done:
+		case <-time.After(10 * time.Second):
+			return nil, fmt.Errorf("handler did not return")
 		}
 	} else {
 		body := unhex(c.BodyHex)
